@@ -31,6 +31,9 @@ class LoopFrame(StackFrame):
         # routine are still the parameters inside the loop.
         self.params = parent.params
         self._loop_var = {}
+        # Depth of the evaluation stack when the loop was entered. Names
+        # pushed by the loop and not yet consumed lie above it.
+        self.eval_depth = None
 
     def get_loop_var(self, index):
         return self._loop_var.get(index, None)
@@ -110,12 +113,24 @@ class CallStack:
     def pop_frame(self) -> None:
         self._top = self._top.parent
 
-    def enter_loop(self) -> None:
+    def enter_loop(self, eval_depth=None) -> None:
         self._top = LoopFrame(self._top)
+        self._top.eval_depth = eval_depth
 
-    def exit_loop(self) -> None:
+    def exit_loop(self):
+        """ Returns the evaluation stack depth recorded by enter_loop(). """
+        eval_depth = getattr(self._top, 'eval_depth', None)
         self._top = self._top.parent
+        return eval_depth
 
-    def unwind_loops(self) -> None:
+    def unwind_loops(self):
+        """
+        Leave all of the loops in the current routine. Returns the evaluation
+        stack depth recorded when the outermost of them was entered, or None.
+        """
+        eval_depth = None
         while isinstance(self._top, LoopFrame):
+            if self._top.eval_depth is not None:
+                eval_depth = self._top.eval_depth
             self._top = self._top.parent
+        return eval_depth
